@@ -4,11 +4,12 @@ import json, os, random, time
 from . import core
 from .core import log
 
-REAL_B = [1, 2, 7, 16, 125, 126, 1024, 4096, 65536]
+REAL_B = [0, 1, 2, 7, 16, 125, 126, 1024, 4096, 65536]     # 0 = not configured (default 4096; the server may reuse the hijacked buffer)
 
 
 def sz(s, B):
-    return max(0, s["mul"] * B + s["add"])
+    # WriteBufferSize 0 means the default size
+    return max(0, s["mul"] * (B or 4096) + s["add"])
 
 
 def concretise(progs, pid, tier, seed, mult, bset=REAL_B, allk=False, kinds=None, force=None):
